@@ -438,7 +438,8 @@ impl<'a> ListStylist<'a> {
                             };
                             inner += body + follow + ln;
                         }
-                        Item::Linebreak(n) => inner += arena.line().repeat_n(n),
+                        // Must vanish when the list is laid out flat, or it adds a stray space.
+                        Item::Linebreak(n) => inner += arena.line_().repeat_n(n),
                     }
                 }
                 if !sty.no_indent {
